@@ -10,8 +10,12 @@ package spdxexp
 
 import "strings"
 
-var vLicPool = []string{"MIT", "GPL-2.0-only", "Apache-2.0", "GPL-3.0-only", "LGPL-2.1-only", "MPL-2.0", "ISC", "BSD-3-Clause", "GPL-1.0-only", "Apache-1.1"}
-var vLaterPool = []string{"", "GPL-2.0-or-later", "", "GPL-3.0-or-later", "LGPL-2.1-or-later", "", "", "", "GPL-1.0-or-later", ""}
+// license pool: a version family first, so that small trees already mix versions
+var vLicPool = []string{"GPL-2.0-only", "GPL-3.0-only", "MIT", "Apache-2.0", "LGPL-2.1-only", "MPL-2.0", "ISC", "BSD-3-Clause", "GPL-1.0-only", "Apache-1.1"}
+var vLaterPool = []string{"GPL-2.0-or-later", "GPL-3.0-or-later", "", "", "LGPL-2.1-or-later", "", "", "", "GPL-1.0-or-later", ""}
+
+// a later version of the same family in the pool (-1: none)
+var vNextPool = []int{1, -1, -1, -1, -1, -1, -1, -1, 0, 3}
 
 const vExc = "Bison-exception-2.2"
 
@@ -23,6 +27,12 @@ func vLeafText(kind byte, id int) string {
 		return vLicPool[id] + "+"
 	case 'W':
 		return vLicPool[id] + " WITH " + vExc
+	case 'Q':
+		return vLicPool[id] + "+ WITH " + vExc
+	case 'U':
+		return strings.ToUpper(vLicPool[id])
+	case 'r':
+		return "LicenseRef-" + string(rune('A'+id))
 	case 'O':
 		if vLaterPool[id] != "" {
 			return vLaterPool[id]
@@ -115,15 +125,25 @@ func vUniverse(kinds, ident string, big bool) []string {
 	for i := range kinds {
 		id := int(ident[i] - '0')
 		switch kinds[i] {
-		case 'L', 'P', 'W', 'O', 'l':
+		case 'L', 'P', 'W', 'O', 'l', 'Q', 'U':
 			add(vLicPool[id])
 			if big {
 				add(vLicPool[id] + "+")
 				add(vLicPool[id] + " WITH " + vExc)
+				if nx := vNextPool[id]; nx >= 0 {
+					add(vLicPool[nx])
+					if kinds[i] == 'W' || kinds[i] == 'Q' {
+						add(vLicPool[nx] + " WITH " + vExc)
+					}
+				}
 			}
 		case 'D':
 			if big {
 				add("LicenseRef-x")
+			}
+		case 'R':
+			if big {
+				add("LicenseRef-" + string(rune('A'+id)))
 			}
 		}
 	}
